@@ -328,8 +328,11 @@ def ref_asdict(ctx: Ctx) -> RuleResult:
     return r
 
 
-def _if_chains(fn: ast.AST) -> Dict[int, Tuple[Tuple[ast.AST, bool], ...]]:
+def _if_chains(fn: ast.AST, guard_clauses: bool = True) -> Dict[int, Tuple[Tuple[ast.AST, bool], ...]]:
     out: Dict[int, Tuple[Tuple[ast.AST, bool], ...]] = {}
+
+    def _leaves(stmts) -> bool:
+        return bool(stmts) and isinstance(stmts[-1], (ast.Continue, ast.Return, ast.Raise, ast.Break))
 
     def go(stmts, chain):
         for s in stmts:
@@ -337,6 +340,11 @@ def _if_chains(fn: ast.AST) -> Dict[int, Tuple[Tuple[ast.AST, bool], ...]]:
             if isinstance(s, ast.If):
                 go(s.body, chain + ((s.test, True),))
                 go(s.orelse, chain + ((s.test, False),))
+                # a guard clause: what follows an `if T: <leave>` is what an else-arm would hold
+                if guard_clauses and _leaves(s.body) and not s.orelse:
+                    chain = chain + ((s.test, False),)
+                elif guard_clauses and s.orelse and _leaves(s.orelse) and not _leaves(s.body):
+                    chain = chain + ((s.test, True),)
             elif isinstance(s, (ast.For, ast.AsyncFor, ast.While, ast.With, ast.AsyncWith)):
                 go(s.body, chain)
                 go(getattr(s, "orelse", []), chain)
